@@ -9,7 +9,9 @@ Decided structurally (clause level):
     `self` (forward provenance dataflow over the clone body; derived or hand-written); a body that is
     not in that shape is decided semantically instead (clone_by_terms).
  K2 an overriding `Clone::clone_from` leaves *self leaf-for-leaf equal to the source (terms).
- D' converted = freshly keyed, by terms: see c12_terms.py.  (The older call-set agreement rule D is kept below for
+ D' converted = freshly keyed, by terms: see c12_terms.py.
+ E  the encrypt-only / decrypt-only / combined types of one family encrypt (decrypt) a symbolic block to identical terms
+    on the instances `new` builds from one symbolic key (c12_terms.run_rule_E).  (The older call-set agreement rule D is kept below for
     reference but no longer used.)
 """
 import re
@@ -541,7 +543,8 @@ def _dprime_job(job):
     F = Facts(cfgname, fdir)
     sub = Check('C12', 'quick', 'other', 'worker')
     n = c12_terms.run_rule(sub, cfgname, F.mono)
-    return cfgname, n, sub.obligations, sub.discharged, sub.by_rule, sub.violations, sub.samples
+    ne = c12_terms.run_rule_E(sub, cfgname, F.mono)
+    return cfgname, (n, ne), sub.obligations, sub.discharged, sub.by_rule, sub.violations, sub.samples
 
 
 def run(chk, facts_by_config):
@@ -571,4 +574,5 @@ def run(chk, facts_by_config):
                 r[1] += v[1]
             chk.violations += viols
             chk.samples += samples[:2]
-            chk.floor("D'-same-keys", n, 'Dp.' + cfgname)
+            chk.floor("D'-same-keys", n[0], 'Dp.' + cfgname)
+            chk.floor('E-same-function', n[1], 'E.' + cfgname)
